@@ -114,7 +114,7 @@ MayDie ==
          [] op.op = "set" -> IF CurSlot # <<>> /\ op.f \in DOMAIN CurSlot.vals THEN {CurSlot.vals[op.f].serial} \ {0} ELSE {}
          [] op.op \in {"convert_full_simple", "convert_uninit_simple", "convert_vec"} ->
               {CurSlot.vals[f].serial : f \in (DOMAIN CurSlot.vals) \cap MinusOf(def, CurSlot.v + 1)} \ {0}
-         [] op.op = "clone_from" -> SerialsOf(OtherSlot)
+         [] op.op \in {"clone_from", "clone_from_panic"} -> SerialsOf(OtherSlot)
          [] OTHER -> {}
 
 TraceMake ==
@@ -147,7 +147,9 @@ TraceDestroy ==
      ELSE /\ UNCHANGED zlive
           /\ st' = Upd(st, e.serial, "dead")
           /\ Consume(If(e.serial \notin DOMAIN st, "H:destroy-of-unknown-serial")
-                \cup If(e.serial \in DOMAIN st /\ st[e.serial] = "dead", "C06:value-destroyed-twice")
+                \cup If(e.serial \in DOMAIN st /\ st[e.serial] = "dead",
+                        IF op # <<>> /\ op.op \in {"clone", "clone_from", "clone_from_panic"}
+                        THEN "C16:value-destroyed-twice" ELSE "C06:value-destroyed-twice")
                 \cup If(e.serial \in DOMAIN st /\ st[e.serial] = "rec" /\ e.serial \notin MayDie,
                         "C06:value-destroyed-while-a-record-still-owns-it"))
 
@@ -198,8 +200,14 @@ Target ==
                     ELSE IF e.k = "write" THEN <<"slot", s, slots[s].v + 1>> ELSE <<"slot", s, slots[s].v>>
     [] o = "clone" -> IF slots[s] = <<>> THEN <<>>
                       ELSE IF e.k = "write" THEN <<"tmp", 0, slots[s].v>> ELSE <<"slot", s, slots[s].v>>
-    [] o = "clone_from" -> IF slots[s] = <<>> \/ slots[3 - s] = <<>> THEN <<>>
-                           ELSE IF e.k = "get_mut" THEN <<"slot", 3 - s, slots[3 - s].v>> ELSE <<"slot", s, slots[s].v>>
+    \* both records are live: the buffer address says which one is touched (`a1` / `a2` of the
+    \* begin event are the addresses of the two records); without a match, a mutable reference is
+    \* attributed to the target and everything else to the source
+    [] o \in {"clone_from", "clone_from_panic"} ->
+         IF slots[s] = <<>> \/ slots[3 - s] = <<>> THEN <<>>
+         ELSE IF e.base = op.a1 /\ op.a1 # op.a2 THEN <<"slot", 1, slots[1].v>>
+         ELSE IF e.base = op.a2 /\ op.a1 # op.a2 THEN <<"slot", 2, slots[2].v>>
+         ELSE IF e.k = "get_mut" THEN <<"slot", 3 - s, slots[3 - s].v>> ELSE <<"slot", s, slots[s].v>>
     [] OTHER -> <<>>
 
 TracePrim ==
@@ -341,18 +349,19 @@ EndConvert ==
            \cup If(e.res = "ok" /\ cap # 0 /\ ~Agrees(def, v + 1, rec2.vals, ext[op.slot]),
                    "C07:conversion-left-the-buffer-inconsistent-with-the-new-variant"))
 
-\* clone: the i-th tracked initialised field is cloned into made[i]
+\* clone: every tracked initialised field is cloned into exactly one of the made values (the
+\* order in which the fields are cloned is not specified)
+ClonesOf(rec, fid) == {i \in DOMAIN made : made[i].from = rec.vals[fid].serial}
 CloneVals(rec) ==
   LET F == DOMAIN rec.vals
-      ts == TrackedSeq(rec.v, F)
-      idx(fid) == CHOOSE i \in DOMAIN ts : ts[i].fid = fid
+      idx(fid) == CHOOSE i \in ClonesOf(rec, fid) : TRUE
   IN [fid \in F |-> IF Field(def, rec.v, fid).tracked
                     THEN [serial |-> made[idx(fid)].serial, payload |-> made[idx(fid)].payload]
                     ELSE rec.vals[fid]]
 CloneMatches(rec) ==
   LET ts == TrackedSeq(rec.v, DOMAIN rec.vals) IN
   /\ Len(made) = Len(ts)
-  /\ \A i \in DOMAIN ts : made[i].from = rec.vals[ts[i].fid].serial
+  /\ \A i \in DOMAIN ts : Cardinality(ClonesOf(rec, ts[i].fid)) = 1
 
 EndClone ==
   LET rec == CurSlot  t == 3 - op.slot IN
@@ -380,6 +389,23 @@ EndCloneFrom ==
   ELSE LET rec2 == [v |-> src.v, vals |-> CloneVals(src)] IN
      /\ SetSlot(t, rec2) /\ st' = Own(st, rec2) /\ UNCHANGED ext /\ lastmut' = "C16" /\ dead' = FALSE
      /\ Consume(If(~AllDead(SerialsOf(dst)), "C16:previous-contents-of-the-target-not-destroyed-exactly-once"))
+
+\* clone assignment with a panic injected into the k-th field clone, followed (inside the same
+\* operation) by the destruction of the target: whatever the order of the field clones and however
+\* far the assignment got, every previous value of the target and every clone made must be gone
+\* exactly once, and the source must be intact
+EndCloneFromPanic ==
+  LET src == CurSlot  t == 3 - op.slot  dst == slots[t] IN
+  IF src = <<>> \/ dst = <<>> \/ src.v # dst.v THEN
+     /\ UNCHANGED <<slots, st, ext, lastmut>> /\ dead' = TRUE /\ Consume({"H:clone_from-needs-two-records-of-one-variant"})
+  ELSE
+     /\ SetSlot(t, <<>>) /\ UNCHANGED st /\ lastmut' = "C16" /\ dead' = FALSE
+     /\ ext' = [ext EXCEPT ![t] = {}]
+     /\ Consume(If(e.res # "ok", "H:operation-panicked")
+           \cup If(~AllDead(SerialsOf(dst)),
+                   "C16:panic-in-a-field-clone-during-clone-assignment-leaked-previous-contents-of-the-target")
+           \cup If(~AllDead(MadeSerials), "C16:panic-in-a-field-clone-during-clone-assignment-leaked-a-clone")
+           \cup If(\E x \in SerialsOf(src) : st[x] # "rec", "C16:clone-assignment-damaged-its-source"))
 
 EndSer ==
   LET rec == CurSlot IN
@@ -433,6 +459,7 @@ TraceEnd ==
        [] IsConvert -> EndConvert
        [] o = "clone" -> EndClone
        [] o = "clone_from" -> EndCloneFrom
+       [] o = "clone_from_panic" -> EndCloneFromPanic
        [] o = "ser" -> EndSer
        [] o = "de" -> EndDe
        [] OTHER -> /\ UNCHANGED <<slots, st, ext, lastmut>> /\ dead' = FALSE
